@@ -31,16 +31,40 @@ def check_saenger(chk) -> None:
     repo = chk.repo
     tf = repo.func(CM, "Saenger.table")
     chk.note_function(tf)
+    from sa.blockeval import BlockEval, Unknown
+
     rets = [r for r in tf.node.body if isinstance(r, ast.Return)]
-    if len(rets) != 1 or not isinstance(rets[0].value, ast.Dict):
-        chk.error("saenger-table", tf.where, "Saenger.table() does not return a dict literal")
+    d = rets[0].value if rets else tf.node
+    lits = [n for n in ast.walk(tf.node) if isinstance(n, ast.Dict) and len(n.keys) > 10]
+    if lits:
+        keys = [Folder(repo, CM).try_fold(k) for k in lits[0].keys]
+        dup = sorted({str(k) for k in keys if keys.count(k) > 1})
+        chk.expect(not dup, "saenger-table", tf.site(lits[0]), f"{len(keys)} distinct keys", f"duplicate keys in the Saenger table (a later entry silently overrides, its intended twin is missing): {dup}", K(tf, "duplicate-keys"), found=dup)
+    try:
+        kind, table = BlockEval(repo, CM, {}).run(tf.node.body)
+    except Unknown as ex:
+        chk.error("saenger-table", tf.where, f"Saenger.table() not evaluable: {ex}")
         return
-    d = rets[0].value
-    keys = [Folder(repo, CM).try_fold(k) for k in d.keys]
-    vals = [Folder(repo, CM).try_fold(v) for v in d.values]
-    dup = sorted({str(k) for k in keys if keys.count(k) > 1})
-    chk.expect(not dup, "saenger-table", tf.site(d), f"{len(keys)} distinct keys", f"duplicate keys in the Saenger table (a later entry silently overrides, its intended twin is missing): {dup}", K(tf, "duplicate-keys"), found=dup)
-    table = dict(zip(keys, vals))
+    except Exception as ex:
+        chk.violation("saenger-table", tf.where, f"building the Saenger table raises {type(ex).__name__}: {ex}", K(tf, "table-raises"))
+        return
+    if kind != "return" or not isinstance(table, dict):
+        chk.error("saenger-table", tf.where, "Saenger.table() does not return a dict")
+        return
+    pinned = {(a, b): c for a, b, c in spec("saenger.json")["table"]}
+    extra = {f"{k[0]},{k[1]}": v for k, v in table.items() if k not in pinned}
+    missing = {f"{k[0]},{k[1]}": v for k, v in pinned.items() if k not in table}
+    changed = {f"{k[0]},{k[1]}": [table[k], v] for k, v in pinned.items() if k in table and table[k] != v}
+    chk.expect(
+        not extra and not missing and not changed,
+        "saenger-pinned",
+        tf.where,
+        f"the evaluated table equals the pinned Saenger classification ({len(pinned)} entries)",
+        "the Saenger table differs from the pinned classification: " + "; ".join(x for x in (f"{len(extra)} entries that define no Saenger class (e.g. {next(iter(extra), None)})" if extra else "", f"{len(missing)} missing (e.g. {next(iter(missing), None)})" if missing else "", f"{len(changed)} changed (e.g. {next(iter(changed.items()), None)})" if changed else "") if x),
+        K(tf, "pinned"),
+        expected={"missing": dict(list(missing.items())[:6])},
+        found={"extra": dict(list(extra.items())[:6]), "changed": dict(list(changed.items())[:6])},
+    )
     members = set(repo.enum_members(CM, "Saenger"))
     lw = set(repo.enum_members(CM, "LeontisWesthof"))
     bad = {str(k): v for k, v in table.items() if v not in members}
@@ -66,21 +90,44 @@ def check_saenger(chk) -> None:
     # lookup
     ds = repo.func(AN, "detect_saenger")
     chk.note_function(ds)
-    key = astq.first_assign(ds.node, "key")
-    ok = key is not None and norm(key) == "(f'{residue_i.one_letter_name}{residue_j.one_letter_name}', lw.value)"
-    rets = [r for r in astq.walk_no_nested(ds.node) if isinstance(r, ast.Return)]
-    ok2 = sorted(norm(r.value) if r.value is not None else "None" for r in rets) == ["None", "Saenger[Saenger.table()[key]]"]
+    inl = Inliner(ds.node)
     fm = FlowMap(ds.node)
-    g_ok = False
+    KEY = "(f'{residue_i.one_letter_name}{residue_j.one_letter_name}', lw.value)"
+    rets = [r for r in astq.walk_no_nested(ds.node) if isinstance(r, ast.Return)]
+    hits = 0
+    problems = []
     for r in rets:
-        if r.value is not None and norm(r.value).startswith("Saenger["):
-            g_ok = any(norm(g.test) == "key in Saenger.table()" and g.polarity for g in facts(fm.of(r).guards))
-    chk.expect(ok and ok2 and g_ok, "saenger-lookup", ds.where, "Saenger class = table[(bases in pair order, lw name)] when present, else None", "detect_saenger does not look up (base_i + base_j, lw.value) in Saenger.table() and return None otherwise", K(ds, "lookup"))
+        if r.value is None or norm(r.value) == "None":
+            continue
+        v = inl.inline(r.value, r, stop=("residue_i", "residue_j", "lw"))
+        t = flat(v)
+        if t == flat(f"Saenger[Saenger.table()[{KEY}]]"):
+            fs = facts(fm.of(r).guards)
+            present = any((flat(inl.inline(g.test, g.stmt or r, stop=("residue_i", "residue_j", "lw"))) == flat(f"{KEY} in Saenger.table()") and g.polarity) or (flat(inl.inline(g.test, g.stmt or r, stop=("residue_i", "residue_j", "lw"))) == flat(f"{KEY} not in Saenger.table()") and not g.polarity) for g in fs)
+            if present:
+                hits += 1
+            else:
+                problems.append(("violation", r, "the Saenger table is subscripted without testing that the key is present: KeyError for pairs that have no Saenger class"))
+        elif t.startswith(flat("Saenger[Saenger.table()[")):
+            swapped = flat("(f'{residue_j.one_letter_name}{residue_i.one_letter_name}', lw.value)")
+            if swapped in t:
+                problems.append(("violation", r, "the Saenger key takes the bases in the order (j, i) while the class lw is read from i to j"))
+            else:
+                problems.append(("error", r, f"Saenger key `{t[24:100]}` not recognised"))
+        else:
+            problems.append(("error", r, f"return value `{t[:80]}` not recognised"))
+    for kind2, r, msg in problems:
+        if kind2 == "error":
+            chk.error("saenger-lookup", ds.site(r), msg)
+        else:
+            chk.violation("saenger-lookup", ds.site(r), msg, K(ds, "lookup"))
+    if not problems:
+        none_ret = any(r.value is None or norm(r.value) == "None" for r in rets)
+        chk.expect(hits == 1 and none_ret, "saenger-lookup", ds.where, "Saenger class = table[(bases in pair order, lw name)] when present, else None", "detect_saenger does not look up (base_i + base_j, lw.value) in Saenger.table() and return None otherwise", K(ds, "lookup"))
     # LW reverse
-    rv = repo.func(CM, "LeontisWesthof.reverse")
-    chk.note_function(rv)
-    rets = [r for r in rv.node.body if isinstance(r, ast.Return)]
-    chk.expect(len(rets) == 1 and norm(rets[0].value) == "LeontisWesthof[f'{self.name[0]}{self.name[2]}{self.name[1]}']", "lw-reverse", rv.where, "reverse swaps the two edge letters and keeps cis/trans", "LeontisWesthof.reverse is not name[0] + name[2] + name[1]", K(rv, "reverse"))
+    from checks import c06
+
+    c06.check_lw_reverse(chk)
     want = {c + a + b for c in "ct" for a in "WHS" for b in "WHS"}
     chk.expect(lw == want, "lw-total", "src/rnapolis/common.py LeontisWesthof", "LeontisWesthof is closed under reverse (all 18 members)", "LeontisWesthof is not the full c/t x {W,H,S}^2 set: reverse can raise KeyError", "common:LeontisWesthof:members", found=sorted(lw ^ want))
     vals_ok = all(isinstance(v, ast.Constant) and v.value == k for k, v in repo.enum_members(CM, "LeontisWesthof").items())
@@ -265,38 +312,54 @@ def check_bph_branches(chk) -> None:
 
 
 def check_merge(chk) -> None:
+    """merge_and_clean_bph_br evaluated on every ordered selection of up to three classes out of {0, 3, 4, 5, 6, 7, 8, 9} for one residue
+    pair (plus a second pair that must stay independent): one class per pair, 3+5 -> 4, 7+9 -> 8, no class invented."""
+    import itertools
+
+    from sa.blockeval import BlockEval, Unknown
+
     repo = chk.repo
     fi = repo.func(AN, "merge_and_clean_bph_br")
     chk.note_function(fi)
-    body = fi.node.body
-    loops = [l for l in body if isinstance(l, ast.For)]
-    if len(loops) != 3:
-        chk.error("bph-merge", fi.where, f"expected three loops (collect, merge, truncate), found {len(loops)}")
+    universe = [0, 3, 4, 5, 6, 7, 8, 9]
+    seqs = [s2 for n in (1, 2, 3) for s2 in itertools.permutations(universe, n)] + [(3, 5, 7, 9), (7, 9, 3, 5), (3, 7, 5, 9)]
+    bad_one, bad_merge, bad_member, bad_other = {}, {}, {}, {}
+    n_eval = 0
+    try:
+        for seq in seqs:
+            pairs = [("r1", "r2", c) for c in seq] + [("r3", "r4", 6)]
+            ev = BlockEval(repo, AN, {fi.node.args.args[0].arg: pairs})
+            kind, res = ev.run(fi.node.body)
+            n_eval += 1
+            if kind != "return" or not isinstance(res, dict) or ("r1", "r2") not in res:
+                bad_other[str(seq)] = f"{kind}: {res!r}"[:80]
+                continue
+            got = list(res[("r1", "r2")])
+            other = list(res.get(("r3", "r4"), []))
+            if other != [6]:
+                bad_other[str(seq)] = f"unrelated pair became {other}"
+            merged = set(seq)
+            if {3, 5} <= merged:
+                merged = (merged - {3, 5}) | {4}
+            if {7, 9} <= merged:
+                merged = (merged - {7, 9}) | {8}
+            if len(got) != 1:
+                bad_one[str(seq)] = got
+            elif got[0] not in merged:
+                if set(seq) in ({3, 5}, {7, 9}) or got[0] in set(seq):
+                    bad_merge[str(seq)] = got
+                else:
+                    bad_member[str(seq)] = got
+    except Unknown as ex:
+        chk.error("bph-merge", fi.where, f"merge_and_clean_bph_br not evaluable: {ex}")
         return
-    col, mer, trn = loops
-    ok = norm(col.iter) == "pairs" and flat(col.target) == "residue_i,residue_j,classification" and [flat(s) for s in col.body] == [flat("bph_br_map[residue_i, residue_j].add(classification)")]
-    chk.expect(ok, "bph-merge", fi.site(col), "classes are collected per (donor residue, acceptor residue), in input order", "classes are not collected per residue pair", K(fi, "collect"))
-    rules = []
-    for st in mer.body:
-        if isinstance(st, ast.If):
-            m = astq.match(st.test, "A_ in S_ and B_ in S_")
-            if m and isinstance(m["A_"], ast.Constant) and isinstance(m["B_"], ast.Constant):
-                rem = sorted(c.args[0].value for c in astq.calls(st, "remove") if c.args and isinstance(c.args[0], ast.Constant))
-                add = sorted(c.args[0].value for c in astq.calls(st, "add") if c.args and isinstance(c.args[0], ast.Constant))
-                rules.append((sorted([m["A_"].value, m["B_"].value]), rem, add))
-    chk.expect(
-        norm(mer.iter) == "bph_br_map.values()" and sorted(rules) == [([3, 5], [3, 5], [4]), ([7, 9], [7, 9], [8])],
-        "bph-merge",
-        fi.site(mer),
-        "3+5 -> 4 and 7+9 -> 8 for every residue pair",
-        "merge rules are not exactly {3,5} -> 4 and {7,9} -> 8",
-        K(fi, "merge-rules"),
-        found=[list(r) for r in rules],
-    )
-    ok = norm(trn.iter) == "bph_br_map.items()" and len(trn.body) == 1 and isinstance(trn.body[0], ast.If) and norm(trn.body[0].test) in ("len(bphs_brs) > 1", "len(bphs_brs) >= 2") and [norm(s) for s in trn.body[0].body] == ["bph_br_map[key] = OrderedSet([bphs_brs[0]])"]
-    chk.expect(ok, "bph-one-class", fi.site(trn), "a residue pair keeps one class (the first) of each kind", "truncation to one class per residue pair is missing or altered", K(fi, "truncate"))
-    rets = [r for r in body if isinstance(r, ast.Return)]
-    chk.expect(len(rets) == 1 and norm(rets[0].value) == "bph_br_map", "bph-merge", fi.where, "returns the cleaned map", "does not return the cleaned map", K(fi, "result"))
+    except Exception as ex:
+        chk.violation("bph-merge", fi.where, f"merge_and_clean_bph_br raises {type(ex).__name__} ({ex}) for one of the class selections", K(fi, "merge-raises"))
+        return
+    chk.expect(not bad_one, "bph-one-class", fi.where, f"a residue pair keeps exactly one class ({n_eval} ordered class selections evaluated)", f"a residue pair can keep several (or no) classes, e.g. contacts classified {next(iter(bad_one), None)} end as {next(iter(bad_one.values()), None)}", K(fi, "truncate"), found=dict(list(bad_one.items())[:5]))
+    chk.expect(not bad_merge, "bph-merge", fi.where, "3+5 -> 4 and 7+9 -> 8 for every residue pair", f"merge rules are not applied: classes {next(iter(bad_merge), None)} end as {next(iter(bad_merge.values()), None)} (3BPh with 5BPh is 4BPh, 7BPh with 9BPh is 8BPh)", K(fi, "merge-rules"), found=dict(list(bad_merge.items())[:5]))
+    chk.expect(not bad_member, "bph-merge", fi.where, "the surviving class is one of the (merged) classes observed for the pair", f"a class is invented: {dict(list(bad_member.items())[:3])}", K(fi, "merge-member"), found=dict(list(bad_member.items())[:5]))
+    chk.expect(not bad_other, "bph-merge", fi.where, "classes are collected per (donor residue, acceptor residue); pairs do not influence each other", f"result is malformed or pairs interfere: {dict(list(bad_other.items())[:2])}", K(fi, "collect"), found=dict(list(bad_other.items())[:5]))
 
 
 def run(chk) -> None:
@@ -308,6 +371,7 @@ def run(chk) -> None:
     )
     chk.trusted = ["CPython ast", "pinned class table spec/bph_classes.json (provenance there)", "OrderedSet keeps insertion order"]
     chk.assumptions = ["float tests inside the torsion split are not decided beyond their +-90 degree boundary"]
+    chk.robust |= c03.ROBUST | {"saenger-table", "saenger-pinned", "saenger-values", "saenger-keys", "saenger-symmetric", "saenger-lookup", "lw-reverse", "lw-total", "lw-values", "bph-class-table", "bph-enum-total", "bph-split", "bph-merge", "bph-one-class"}
     c03.check_find_pairs(chk, parts=("contacts", "labels"))
     check_bph_branches(chk)
     check_merge(chk)
@@ -318,9 +382,9 @@ def run(chk) -> None:
 
     fs = chk.repo.func(AN, "find_stackings")
     chk.note_function(fs)
-    outs = [l for l in fs.node.body if isinstance(l, ast.For) and norm(l.iter) == "sorted(pairs)"]
+    outs = [l for l in ast.walk(fs.node) if isinstance(l, (ast.For, ast.comprehension)) and norm(l.iter) == "sorted(pairs)"]
     chk.expect(len(outs) == 1, "sorted-emission", fs.where, "stackings are emitted from sorted(pairs)", "stackings are not emitted by iterating sorted(pairs)", K(fs, "emission"))
-    for rule, n in (("saenger-symmetric", 1), ("bph-class-table", 19), ("contact-skips", 4), ("sorted-emission", 4), ("bph-merge", 3), ("bph-one-class", 1)):
+    for rule, n in (("saenger-symmetric", 1), ("bph-class-table", 19), ("contact-skips", 4), ("sorted-emission", 4), ("bph-merge", 3), ("bph-one-class", 1), ("saenger-lookup", 1)):
         chk.floor(rule, n)
 
 
